@@ -40,7 +40,7 @@ func (a *{{ $structName }}) Get{{ $fieldName }}() {{ $type }} {
 	return a.{{ $fieldName }}
 }
 
-{{ if or (eq (index $type 0) '*') (eq (slice $type 0 2) "[]") (eq (slice $type 0 3) "map") }}
+{{ if or (eq (index $type 0) '*') (eq (slice $type 0 2) "[]") (HasPrefix $type "map[") }}
 func copy{{ $structName }}{{ $fieldName }}(a {{ $type }}) {{ $type }} {
 	if a == nil {
 		return nil
@@ -106,7 +106,7 @@ func (a *{{ $structName }}) DeepCopyInto(b *{{ $structName }}) {
 	{{- else }}
 	{{- $type = FieldType $tableName $field.Column $field.Schema }}
 	{{- end }}
-	{{- if or (eq (index $type 0) '*') (eq (slice $type 0 2) "[]") (eq (slice $type 0 3) "map") }}
+	{{- if or (eq (index $type 0) '*') (eq (slice $type 0 2) "[]") (HasPrefix $type "map[") }}
 	b.{{ $fieldName }} = copy{{ $structName }}{{ $fieldName }}(a.{{ $fieldName }})
 	{{- end }}
 	{{- end }}
@@ -139,7 +139,7 @@ func (a *{{ $structName }}) Equals(b *{{ $structName }}) bool {
 	{{- end }}
 	{{- if $i }}&&
 	{{ else }}return {{ end }}
-	{{- if or (eq (index $type 0) '*') (eq (slice $type 0 2) "[]") (eq (slice $type 0 3) "map") -}}
+	{{- if or (eq (index $type 0) '*') (eq (slice $type 0 2) "[]") (HasPrefix $type "map[") -}}
 	equal{{ $structName }}{{ $fieldName }}(a.{{ $fieldName }}, b.{{ $fieldName }})
 	{{- else -}}
 	a.{{ $fieldName }} == b.{{ $fieldName }}
@@ -187,6 +187,7 @@ func NewTableTemplate() *template.Template {
 		template.FuncMap{
 			"PrintVal":           printVal,
 			"EnumValueName":      enumValueName,
+			"HasPrefix":          strings.HasPrefix,
 			"FieldName":          FieldName,
 			"FieldType":          FieldType,
 			"FieldTypeWithEnums": FieldTypeWithEnums,
